@@ -159,24 +159,6 @@ Ltac passthrough :=
   | |- _ => intro; subst; reflexivity
   end.
 
-Lemma verify_pulse_power_spec c v r :
-  cfg_ok c = true -> get_and_verify_pulse_power c v = Ok r ->
-  power_ok (cfg_max_pulse_power c) r = true /\ (v <> PNone -> r = v).
-Proof.
-  intros Hc H. cfg_facts Hc. unfold get_and_verify_pulse_power in H. cbv beta zeta in H.
-  inv; subst; (split; [|passthrough]); unfold power_ok;
-    repeat match goal with
-           | H : truthy ?l = _ |- context [truthy ?l] => rewrite H
-           | H : leb_v _ _ = true |- context [leb_v _ _] => rewrite H
-           end; cbn [negb andb orb]; try reflexivity;
-    match goal with
-    | G : t_cmp Gt ?a ?b = Some false |- _ =>
-        apply cmp_gt_false_leb in G;
-        [ try exact G | eapply leb_v_num_r; eassumption
-        | match goal with T : truthy b = true |- _ => eapply leb_v_num_r; eapply opt_unit_truthy; eassumption end ]
-    end.
-Qed.
-
 Ltac rw_facts :=
   repeat match goal with
          | H : truthy ?l = _ |- context [truthy ?l] => rewrite H
@@ -189,68 +171,88 @@ Ltac contra :=
   | A : ?x = true, B : ?x = false |- _ => rewrite A in B; discriminate B
   end.
 
-(* discharge the final `if x > limit: raise` of a verify function: turns G into leb_v x limit *)
-Ltac use_gt G :=
-  match type of G with
-  | t_cmp Gt ?a ?b = Some false =>
-      apply cmp_gt_false_leb in G;
-      [ | eapply leb_v_num_r; eassumption
-        | first [ reflexivity
-                | apply is_pint_num; assumption
-                | eapply leb_v_num_r; eassumption
-                | match goal with T : truthy b = true |- _ => eapply leb_v_num_r; eapply opt_unit_truthy; eassumption end ] ]
-  end.
+(* a configured (truthy) limit is a number: unpack what cfg_ok says about it *)
+Ltac prep_cfg :=
+  repeat match goal with
+         | T : truthy ?m = true, N : opt_unit ?m = true |- _ =>
+             unfold opt_unit in N; rewrite (truthy_not_none _ T) in N; cbn [orb] in N
+         | T : truthy ?m = true, N : is_none ?m || _ = true |- _ =>
+             rewrite (truthy_not_none _ T) in N; cbn [orb] in N
+         | N : _ && _ = true |- _ => apply andb_true_iff in N; destruct N
+         | E : _ = PInt _ |- _ => rewrite E in *; clear E
+         end.
+
+Ltac solve_num :=
+  first [ reflexivity | apply is_pint_num; assumption
+        | eapply leb_v_num_r; eassumption | eapply leb_v_num_l; eassumption ].
+
+Lemma cmp_ge_leb a b : t_cmp Ge a b = Some true -> leb_v b a = true.
+Proof.
+  intro H. apply t_cmp_true in H; [|discriminate]. destruct H as (x & y & Ha & Hb & L).
+  apply leb_v_spec. eauto.
+Qed.
+Lemma cmp_le_false_num a b : t_cmp Le a b = Some false -> is_num a = true -> is_num b = true -> leb_v b a = true.
+Proof.
+  intros H Ha Hb. apply is_num_spec in Ha as [x Ha]. apply is_num_spec in Hb as [y Hb].
+  pose proof (t_cmp_false Le a b x y H Ha Hb) as L. cbn in L. apply leb_v_spec. exists y, x. repeat split; auto. lra.
+Qed.
+Lemma cmp_ge_false_num a b : t_cmp Ge a b = Some false -> is_num a = true -> is_num b = true -> leb_v a b = true.
+Proof.
+  intros H Ha Hb. apply is_num_spec in Ha as [x Ha]. apply is_num_spec in Hb as [y Hb].
+  pose proof (t_cmp_false Ge a b x y H Ha Hb) as L. cbn in L. apply leb_v_spec. exists x, y. repeat split; auto. lra.
+Qed.
+
+(* every comparison that survived on an accepting path becomes a leb_v fact, whichever way round and with
+   whichever operator the source wrote it *)
+Ltac norm_cmp :=
+  repeat match goal with
+         | G : t_cmp Ge _ _ = Some true |- _ => apply cmp_ge_leb in G
+         | G : t_cmp Gt _ _ = Some false |- _ => apply cmp_gt_false_leb in G; [ | solve_num | solve_num ]
+         | G : t_cmp Lt _ _ = Some false |- _ => apply cmp_lt_false_leb in G; [ | solve_num | solve_num ]
+         | G : t_cmp Le _ _ = Some false |- _ => apply cmp_le_false_num in G; [ | solve_num | solve_num ]
+         | G : t_cmp Ge _ _ = Some false |- _ => apply cmp_ge_false_num in G; [ | solve_num | solve_num ]
+         end.
+
+Ltac start_verify Hc H f :=
+  cfg_facts Hc; unfold f in H; cbv beta zeta in H; inv; subst; try contra; prep_cfg; norm_cmp.
+
+Lemma verify_pulse_power_spec c v r :
+  cfg_ok c = true -> get_and_verify_pulse_power c v = Ok r ->
+  power_ok (cfg_max_pulse_power c) r = true /\ (v <> PNone -> r = v).
+Proof.
+  intros Hc H. start_verify Hc H get_and_verify_pulse_power;
+    (split; [|passthrough]); unfold power_ok; rw_facts; try reflexivity; try assumption.
+Qed.
 
 Lemma verify_hold_power_spec c v r :
   cfg_ok c = true -> get_and_verify_hold_power c v = Ok r ->
   power_ok (cfg_max_hold_power c) r = true /\ (truthy r = true -> holding_allowed c = true) /\ (v <> PNone -> r = v).
 Proof.
-  intros Hc H. cfg_facts Hc. unfold get_and_verify_hold_power in H. cbv beta zeta in H.
-  inv; subst; try contra; (split; [|split; [|passthrough]]); unfold power_ok, holding_allowed; rw_facts;
-    try reflexivity; try (intros _; rewrite ?orb_true_r; reflexivity);
+  intros Hc H. start_verify Hc H get_and_verify_hold_power;
+    (split; [|split; [|passthrough]]); unfold power_ok, holding_allowed; rw_facts;
+    try reflexivity; try assumption; try (intros _; rewrite ?orb_true_r; reflexivity);
+    intro T; exfalso;
     match goal with
-    | G : t_cmp Gt _ _ = Some false |- _ =>
-        use_gt G; try exact G;
-        try (intro T; exfalso;
-             match goal with L0 : leb_v (PInt 0) ?r = true |- _ => rewrite (zero_falsy r L0 G) in T; discriminate T end)
+    | L0 : leb_v (PInt 0) ?r = true, L1 : leb_v ?r (PInt 0) = true |- _ =>
+        rewrite (zero_falsy r L0 L1) in T; discriminate T
     end.
 Qed.
-
-Ltac use_lt0 :=
-  match goal with
-  | G : t_cmp Lt ?a (PInt 0) = Some false |- _ =>
-      apply cmp_lt_false_leb in G; [ | reflexivity | reflexivity ]
-  end.
 
 Lemma verify_pulse_ms_spec c v r :
   cfg_ok c = true -> get_and_verify_pulse_ms c v = Ok r ->
   dur_ok (cfg_max_pulse_ms c) r = true /\ (v <> PNone -> r = v).
 Proof.
-  intros Hc H. cfg_facts Hc. unfold get_and_verify_pulse_ms in H. cbv beta zeta in H.
-  inv; subst; try contra;
-    repeat match goal with E : _ = PInt _ |- _ => rewrite E in * end;
-    use_lt0; (split; [|passthrough]); unfold dur_ok; cbn [is_pint]; rw_facts; try reflexivity.
-  all: match goal with
-       | T : truthy ?m = true, N : is_none ?m || (is_pint ?m && _) = true |- _ =>
-           rewrite (truthy_not_none _ T) in N; cbn [orb] in N; apply andb_true_iff in N; destruct N
-       end.
-  all: match goal with G : t_cmp Gt _ _ = Some false |- _ => use_gt G; exact G end.
+  intros Hc H. start_verify Hc H get_and_verify_pulse_ms;
+    (split; [|passthrough]); unfold dur_ok; cbn [is_pint]; rw_facts; try reflexivity; try assumption.
 Qed.
 
 Lemma verify_timed_enable_ms_spec c v r :
   cfg_ok c = true -> get_and_verify_timed_enable_ms c v = Ok r ->
   hold_dur_ok c r = true /\ (v <> PNone -> r = v).
 Proof.
-  intros Hc H. cfg_facts Hc. unfold get_and_verify_timed_enable_ms in H. cbv beta zeta in H.
-  inv; subst; try contra;
-    repeat match goal with E : _ = PInt _ |- _ => rewrite E in * end;
-    use_lt0; (split; [|passthrough]); unfold hold_dur_ok, hold_ms_limit; cbn [is_pint]; rw_facts; try reflexivity.
-  all: match goal with
-       | T : truthy ?m = true, N : is_none ?m || _ = true |- _ =>
-           rewrite (truthy_not_none _ T) in N; cbn [orb] in N
-       end.
-  all: match goal with G : t_cmp Gt _ _ = Some false |- _ => use_gt G end.
-  all: apply leb_times_1000; assumption.
+  intros Hc H. start_verify Hc H get_and_verify_timed_enable_ms;
+    (split; [|passthrough]); unfold hold_dur_ok, hold_ms_limit; cbn [is_pint]; rw_facts; try reflexivity;
+    apply leb_times_1000; assumption.
 Qed.
 
 Lemma pyval_eqb_refl v : pyval_eqb v v = true.
